@@ -2,7 +2,7 @@
 
     Statements only; each is closed by [exact] of a lemma of Proofs/OpenPosProofs.v (structure of the two
     passes, layout, capacity, lookups) or Proofs/OpenPosArith.v (exact identities and the accuracy of the
-    31-digit decimal figures).  The model they speak about is Model/OpenPos.v; its arithmetic expressions,
+    31-digit decimal figures; Proofs/OpenPosWeights.v: the decimal weights of a sheet add up to 1 within an explicit bound).  The model they speak about is Model/OpenPos.v; its arithmetic expressions,
     column tables, header height, sheet names and template sizes are re-translated from
     src/rp2/plugin/report/open_positions.py on every run (Generated.v, fragment open_positions), so these
     statements are re-checked against the source as it is now.
@@ -23,7 +23,7 @@ From Coq Require Import QArith Qabs Permutation.
 From RP2V Require Import Base.Prelude Base.Time Base.Dec Base.Assoc Model.Types Model.Generated Model.Txn Model.Matcher
   Model.MatchSpec Model.MatchWf Model.Pipeline Model.ComputedSpec Proofs.PipelineWf
   Model.Computed Model.Grid Model.ReportInput Model.OpenPos Proofs.DecProofs Proofs.C04Proofs Proofs.OpenPosProofs
-  Proofs.OpenPosArith Proofs.OpenPosExamples Proofs.OpenPosReconcile.
+  Proofs.OpenPosArith Proofs.OpenPosExamples Proofs.OpenPosReconcile Proofs.OpenPosWeights.
 Open Scope Z_scope.
 
 (** ---- the code's expressions and columns (break when the source changes them) *)
@@ -289,6 +289,54 @@ Theorem C15_compute_parts : forall period from_ to_ allow exs hos t fs c,
   balances allow to_ exs hos t = Ok (cd_balances c).
 Proof. exact compute_parts. Qed.
 
+(** ---- the COMBINED decimal inequality for the weights (Proofs/OpenPosWeights.v): the exact identity, the accuracy of one row's
+    weight (3 roundings) and the accuracy of the two decimal sums behind it -- the grand total is ONE running decimal sum over the
+    counted lots of all assets, the per-asset costs are one decimal sum per asset; both approximate the exact sum of the counted
+    decimal lot costs within E n, n = [n_counted cs] = number of counted lots (lots with unsold cost > 0) of all assets.
+    For the rows of the "Asset" sheet ([holder_envs_of]: one per holder with a counted balance, all listed assets):
+        | sum of the decimal weights - 1 | * (1 - E n)  <=  E (n + 3) + E n,        E k = (1 + 5e-31)^k - 1
+    Hypotheses: the first pass succeeds and lists an asset; every listed asset has an account with a positive balance
+    (C15_listed_has_balance / C15_listed_has_balance_from_rows); E n < 1 *)
+Theorem C15_weights_sum_close_to_one : forall i inp cs s, first_pass cs = Ok s -> fp_costs s <> [] ->
+  (forall a c, nth_error cs a = Some c -> asset_listed c = true -> pos_balances c <> []) ->
+  (E (n_counted cs) < 1)%Q ->
+  (Qabs (sumQ (map (fun e => to_q (re_weight e)) (flat_map (holder_envs_of i inp s) (fp_costs s))) - 1) * (1 - E (n_counted cs))
+   <= E (n_counted cs + 3) + E (n_counted cs))%Q.
+Proof. exact weights_sum_close_to_one. Qed.
+(** explicit: for n counted lots with n * 5e-31 <= 1/4 (n <= 5e29) the weights add up to 1 within (8 n + 12) * 5e-31; the number of
+    counted lots is at most the number of acquired lots of the listed assets, which is at least the number of listed assets *)
+Theorem C15_weights_sum_close_to_one_explicit : forall i inp cs s, first_pass cs = Ok s -> fp_costs s <> [] ->
+  (forall a c, nth_error cs a = Some c -> asset_listed c = true -> pos_balances c <> []) ->
+  (inject_Z (Z.of_nat (n_counted cs)) * EPS <= 1 # 4)%Q ->
+  (Qabs (sumQ (map (fun e => to_q (re_weight e)) (flat_map (holder_envs_of i inp s) (fp_costs s))) - 1)
+   <= (8 * inject_Z (Z.of_nat (n_counted cs)) + 12) * EPS)%Q.
+Proof. exact weights_sum_close_to_one_explicit. Qed.
+(** the same for the rows of the "Asset - Exchange" sheet (one per counted (exchange, holder) account), provided the accounts of a
+    listed asset's balance table are pairwise distinct (of a repeated account the model, like the code, keeps the first entry) *)
+Theorem C15_exchange_weights_sum_close_to_one : forall i inp cs s, first_pass cs = Ok s -> fp_costs s <> [] ->
+  (forall a c, nth_error cs a = Some c -> asset_listed c = true -> pos_balances c <> []) ->
+  (forall a c, nth_error cs a = Some c -> asset_listed c = true -> NoDup (map acct (pos_balances c))) ->
+  (inject_Z (Z.of_nat (n_counted cs)) * EPS <= 1 # 4)%Q ->
+  (Qabs (sumQ (map (fun e => to_q (re_weight e)) (flat_map (exch_envs_of i inp s) (fp_costs s))) - 1)
+   <= (8 * inject_Z (Z.of_nat (n_counted cs)) + 12) * EPS)%Q.
+Proof. exact exch_weights_sum_close_to_one_explicit. Qed.
+Theorem C15_n_counted : forall cs, n_counted cs = length (flat_map (fun c => map (lot_unrealised c) (filter (lot_counted c) (cd_ins c))) cs).
+Proof. reflexivity. Qed.
+(** the two decimal sums: grand total and per-asset cost, as decimal sums (from 0, in order) of the counted decimal lot costs *)
+Theorem C15_total_is_running_sum : forall cs s, first_pass cs = Ok s -> fp_total s = fold_left dadd (all_counted cs) dzero.
+Proof. exact total_is_sum. Qed.
+Theorem C15_asset_cost_is_sum : forall c, asset_cost_of c = fold_left dadd (counted_costs c) dzero.
+Proof. exact asset_cost_fold. Qed.
+(** (1 + 5e-31)^n - 1 <= 2 n 5e-31 while n * 5e-31 <= 1/2 *)
+Theorem C15_E_linear : forall n, (inject_Z (Z.of_nat n) * EPS <= 1 # 2 -> E n <= 2 * inject_Z (Z.of_nat n) * EPS)%Q.
+Proof. exact E_linear. Qed.
+(** non-vacuity: the three-asset example (AAA with two lots and a transfer between accounts, BBB, CCC sold out): 3 counted lots,
+    both sheets within 36 * 5e-31 of 100 % *)
+Theorem C15_weights_nonvacuous : exists s, first_pass ex_cs = Ok s /\ fp_costs s <> [] /\ n_counted ex_cs = 3%nat /\
+  (Qabs (sumQ (map (fun e => to_q (re_weight e)) (flat_map (holder_envs_of ex_i [] s) (fp_costs s))) - 1) <= (8 * 3 + 12) * EPS)%Q /\
+  (Qabs (sumQ (map (fun e => to_q (re_weight e)) (flat_map (exch_envs_of ex_i [] s) (fp_costs s))) - 1) <= (8 * 3 + 12) * EPS)%Q.
+Proof. exact ex_weights. Qed.
+
 Print Assumptions C15_formulas_from_source.
 Print Assumptions C15_listed_assets.
 Print Assumptions C15_listed_has_unsold.
@@ -319,3 +367,11 @@ Print Assumptions C15_exch_sheet_cells.
 Print Assumptions C15_balance_cell.
 Print Assumptions C15_capacity.
 Print Assumptions C15_compute_parts.
+Print Assumptions C15_weights_sum_close_to_one.
+Print Assumptions C15_weights_sum_close_to_one_explicit.
+Print Assumptions C15_exchange_weights_sum_close_to_one.
+Print Assumptions C15_n_counted.
+Print Assumptions C15_total_is_running_sum.
+Print Assumptions C15_asset_cost_is_sum.
+Print Assumptions C15_E_linear.
+Print Assumptions C15_weights_nonvacuous.
